@@ -8,6 +8,10 @@ require (
 	github.com/mattn/go-runewidth v0.0.19
 )
 
-require github.com/itchyny/timefmt-go v0.1.8 // indirect
+require (
+	github.com/clipperhouse/stringish v0.1.1 // indirect
+	github.com/clipperhouse/uax29/v2 v2.3.0 // indirect
+	github.com/itchyny/timefmt-go v0.1.8 // indirect
+)
 
 replace github.com/itchyny/gojq => /repo
